@@ -408,7 +408,9 @@ async def _kill(loop, case, base, k, out: Outcome):
         pass
     await cons.finish()
     for i in before:
-        if got.count(i) != 1:
+        places = pr2.get(i, [])
+        later = len(places) == 1 and places[0].kind == "delayed" and (places[0].due is None or places[0].due > loop.time() - 1.0)
+        if got.count(i) > 1 or (got.count(i) == 0 and not later):
             out.v("recovered-delivery-count", f"recovered message {i} was delivered {got.count(i)} times to a fresh consumer")
 
 
